@@ -63,6 +63,10 @@ impl AbstractDb {
         }
         self.quads.insert((s.render(), p.render(), o.render(), g.map(|x| x.to_string())));
     }
+    /// a quoted term the database knows without any quad using it (e.g. encoded ahead of use)
+    pub fn note_quoted(&mut self, t: &T) {
+        t.quoted_subterms(&mut self.quoted);
+    }
     pub fn create_graph(&mut self, g: &str) {
         self.graphs.insert(g.to_string());
     }
@@ -124,6 +128,23 @@ pub fn selftest() -> Vec<String> {
     }
     if x.union(&y) != y.union(&x) {
         errs.push("termdb reference: union not commutative".into());
+    }
+    // a quoted term known without a quad: part of the database, carried by union, no quad / graph / seed
+    let mut w = AbstractDb::default();
+    w.note_quoted(&T::q(c.clone(), q.clone(), inner.clone()));
+    let wq: BTreeSet<String> = ["<< a p b >>", "<< c q << a p b >> >>"].iter().map(|s| s.to_string()).collect();
+    if w.quoted != wq || !w.quads.is_empty() || !w.graphs.is_empty() || !w.seeds.is_empty() {
+        errs.push(format!("termdb reference: note_quoted wrong: {:?}", w));
+    }
+    match AbstractDb::default().union(&w) {
+        Some(u) if u == w => {}
+        other => errs.push(format!("termdb reference: union with an unreferenced quoted term wrong: {:?}", other)),
+    }
+    // a seed on a triple whose subject is a quoted term is keyed by the rendered text
+    let mut sq = AbstractDb::default();
+    sq.tag(&inner, &q, &c, 0.5);
+    if sq.seeds.get(&("<< a p b >>".to_string(), "q".to_string(), "c".to_string())) != Some(&0.5f64.to_bits()) || !sq.quoted.contains("<< a p b >>") || sq.quads.len() != 1 {
+        errs.push(format!("termdb reference: seed on a quoted-subject triple wrong: {:?}", sq));
     }
     let mut z = AbstractDb::default();
     z.tag(&a, &q, &c, 0.25);
